@@ -6,6 +6,7 @@ from hypothesis import strategies as st
 from .. import driver, gen
 from ..driver import call, cls_for, fresh, py_name, stub
 from ..history import Run, draw_op
+from ..oracle import lexical
 from ..oracle.schema import schema
 from ..run import hyp_search, mix
 
@@ -20,7 +21,10 @@ RULE = ('(a) unchecked parents of ANY of the 441 classes with Hypothesis-drawn h
         'unchecked element stuffed with arbitrary children must serialise, with that child\'s content in insertion '
         'order; (d) the setting is per element: for every type, two elements born unchecked and later switched to '
         'checking: children added to the first are not visible in the second, which accepts, rejects and serialises '
-        'exactly like an element checked from the start.  Non-trivial = a child sequence the checked twin rejects, or a mixed tree of depth>=3; distinct by '
+        'exactly like an element checked from the start; (e) nothing else is switched off: for all 441 classes, '
+        'every sample value (valid and invalid, from the lexical oracle) and every attribute x sample value gets the '
+        'same verdict (accepted / same exception type) from an unchecked as from a checked element, undeclared dot '
+        'names are refused alike.  Non-trivial = a child sequence the checked twin rejects, or a mixed tree of depth>=3; distinct by '
         'case.')
 ASSUMPTIONS = ['children are unchecked stubs unless stated; checked descendants of an unchecked node inside a checked '
                'tree are not asserted either way']
@@ -172,6 +176,55 @@ def per_element(el, word):
     return None, 'compared'
 
 
+def nothing_else(el):
+    """value and attribute validation are NOT switched off: every sample value / attribute value gets the same
+    verdict (accepted, or the same exception type) from an unchecked element as from a checked one"""
+    s = schema()
+    t = s.element_type[el]
+    cls = cls_for(el)
+    n = 0
+    tt = s.text_type(t)
+    samples = []
+    if tt is not None:
+        for txt in lexical.valid_texts(tt)[:12]:
+            ok, pv = lexical.python_value_for(tt, txt)
+            samples.append(pv if ok else txt)
+        samples += list((lexical.invalid_texts(tt) or [])[:12])
+        samples += [None, 1.5, -3, True, 'zz9']
+    else:
+        samples = [None, '', 'x', 1]
+    for v in samples:
+        va, vb = call(cls, v, xsd_check=True).verdict(), call(cls, v, xsd_check=False).verdict()
+        n += 1
+        if va[0] != vb[0]:
+            return F('unchecked-element-validates-differently', t,
+                     {'mode': 'nothing-else', 'element': el, 'value': repr(v)}, {'checked': va, 'unchecked': vb}), n
+    ra, rb = call(fresh, el, True), call(fresh, el, False)
+    if ra.ok and rb.ok:
+        for a in s.attributes_of(t):
+            if a['qname'].startswith('xlink:') or a['qname'] in ('xml:space', 'name'):
+                continue
+            dot = py_name(a['qname'].split(':')[-1])
+            vals = []
+            for txt in lexical.valid_texts(a['type'])[:4]:
+                ok, pv = lexical.python_value_for(a['type'], txt)
+                vals.append(pv if ok else txt)
+            vals += list((lexical.invalid_texts(a['type']) or [])[:4])
+            for v in vals + [2.5, 'zz9']:
+                va, vb = call(setattr, ra.value, dot, v).verdict(), call(setattr, rb.value, dot, v).verdict()
+                n += 1
+                if va[0] != vb[0]:
+                    return F('unchecked-element-validates-differently', t,
+                             {'mode': 'nothing-else', 'element': el, 'attribute': a['qname'], 'value': repr(v)},
+                             {'checked': va, 'unchecked': vb}), n
+        for nm in ('bogus_attr_zz', 'xml_bogus_child_zz'):
+            va, vb = call(setattr, ra.value, nm, 'x').verdict(), call(setattr, rb.value, nm, 'x').verdict()
+            if va[0] != vb[0]:
+                return F('unchecked-element-validates-differently', t,
+                         {'mode': 'nothing-else', 'element': el, 'name': nm}, {'checked': va, 'unchecked': vb}), n
+    return None, n
+
+
 # -- (c) mixed trees -------------------------------------------------------------------------------
 
 def nested_checked(el, wrappers, ops):
@@ -254,6 +307,8 @@ def replay_case(rec):
         return run_unchecked(inp['element'], inp['ops'])[0]
     if m == 'identity':
         return byte_identity(inp['element'], tuple(inp['word']))[0]
+    if m == 'nothing-else':
+        return nothing_else(inp['element'])[0]
     if m == 'per-element':
         return per_element(inp['element'], tuple(inp['word']))[0]
     if m == 'nested-checked':
@@ -263,7 +318,7 @@ def replay_case(rec):
 
 def shards(ctx):
     te = gen.types_and_elements()
-    jobs = [{'mode': 'identity-exh', 'types': part} for part in gen.chunk(te, 8)]
+    jobs = [{'mode': 'identity-exh', 'types': part, 'first': i == 0} for i, part in enumerate(gen.chunk(te, 8))]
     for i in range(8):
         jobs.append({'mode': 'unchecked', 'index': i})
     for i in range(4):
@@ -278,6 +333,13 @@ def run_shard(ctx, shard, acc):
     names = all_names()
     te = gen.types_and_elements(all_elements=not ctx.quick)
     if shard['mode'] == 'identity-exh':
+        if shard.get('first'):
+            for el in names:
+                f, n = nothing_else(el)
+                acc.case({'mode': 'nothing-else', 'element': el}, True, n)
+                acc.count('nothing-else-comparisons', n)
+                if f:
+                    acc.fail(f, raise_=False)
         for t, els in shard['types']:
             for w in s.dfa(t).enumerate(3, cap=6 if ctx.quick else 60):
                 if not w:
